@@ -51,7 +51,7 @@ DICT_ENTRIES = ["setitem", "setdefault", "update_mapping", "update_pairs", "upda
                 "update_over_container", "reset_over_container", "setitem_over_container",
                 "update_over_empty", "reset_over_empty"]
 LIST_ENTRIES = ["setitem", "slice", "append", "extend", "insert", "iadd", "reset", "extend_gen"]
-SINGLE = {"setitem", "setdefault", "append", "insert", "update_kwargs"}
+SINGLE = {"setitem", "setdefault", "append", "insert", "update_kwargs", "setitem_over_container"}
 KNOWN_PUBLIC = {
     "clear", "copy", "get", "items", "keys", "pop", "popitem", "reset", "setdefault", "update", "values",
     "append", "count", "extend", "index", "insert", "remove", "reverse", "is_base_type", "registry",
